@@ -20,10 +20,10 @@ worker() {
     prop=$(python3 -c "import json;print(json.load(open('$sd/meta.json'))['property'])")
     patch=$sd/patch.diff
     [ -f $sd/patch_ported_to_head.diff ] && patch=$sd/patch_ported_to_head.diff
-    if ! git -C $WT apply $patch 2>/dev/null; then echo "$id prop=$prop APPLY-FAILED"; continue; fi
-    (cd $V && VERIF_REPO=$WT timeout 1500 ./bin/vcheck run $prop --no-evidence) >$LOG/$id.regress 2>&1; code=$?
+    if ! git -C $WT apply $patch 2>/dev/null && ! git -C $WT apply --3way $patch >/dev/null 2>&1; then echo "$id prop=$prop APPLY-FAILED"; continue; fi
+    (cd $V && VERIF_REPO=$WT timeout 2400 ./bin/vcheck run $prop --no-evidence) >$LOG/$id.regress 2>&1; code=$?
     labels=$(grep -o 'obligation [A-Za-z0-9_.]* failed' $LOG/$id.regress | awk '{print $2}' | sort -u | head -4 | tr '\n' ',')
-    git -C $WT checkout -q -- . ; git -C $WT clean -fdq
+    git -C $WT reset -q --hard; git -C $WT clean -fdq
     echo "$id | $prop exit=$code $labels"
   done
   git -C /repo worktree remove --force $WT
